@@ -28,7 +28,10 @@ REPLAY = os.path.join(OUT, "replay")
 SCRATCH = os.path.join(OUT, "scratch")
 EVIDENCE = os.path.join(VERIF, "evidence")
 KNOWN = os.path.join(VERIF, "known_findings.jsonl")
-REPO = "/repo"
+REPO = os.environ.get("VERIF_REPO", "/repo")
+if REPO != "/repo":
+    # mutation self-test against a scratch worktree: never touch the committed evidence
+    EVIDENCE = os.path.join(OUT, "evidence-selftest")
 
 GOENV = {
     "GOFLAGS": "-mod=mod",
@@ -252,17 +255,39 @@ def go_env():
     return env
 
 
+def harness_modfile():
+    """go.mod used to build drivers. With VERIF_REPO set (mutation self-tests in a scratch
+    worktree) an alternate modfile redirects the replace directives there."""
+    if REPO == "/repo":
+        return None
+    tag = hashlib.sha256(REPO.encode()).hexdigest()[:10]
+    d = os.path.join(OUT, "alt-" + tag)
+    os.makedirs(d, exist_ok=True)
+    with open(os.path.join(HARNESS, "go.mod")) as f:
+        txt = f.read()
+    txt = txt.replace("=> /repo", "=> " + REPO)
+    mf = os.path.join(d, "go.mod")
+    with open(mf, "w") as f:
+        f.write(txt)
+    shutil.copy(os.path.join(HARNESS, "go.sum"), os.path.join(d, "go.sum"))
+    return mf
+
+
 def build_driver(mod, tags=None):
-    """go test -c the driver against /repo's working tree. Failure = ToolError (exit 2)."""
+    """go test -c the driver against the repo working tree. Failure = ToolError (exit 2)."""
     ensure_dirs()
     pkg = mod["driver_pkg"]
     tags = tags or mod.get("driver_tags", "verif")
-    name = "%s-%s.test" % (mod["module"], tags.replace(",", "_").replace(" ", "_"))
-    out = os.path.join(BIN, name)
     gosum = os.path.join(HARNESS, "go.sum")
     if not os.path.exists(gosum):
         sync_gosum()
+    suffix = "" if REPO == "/repo" else "-" + hashlib.sha256(REPO.encode()).hexdigest()[:10]
+    name = "%s-%s%s.test" % (mod["module"], tags.replace(",", "_").replace(" ", "_"), suffix)
+    out = os.path.join(BIN, name)
     cmd = [GO, "test", "-c", "-tags", tags, "-o", out]
+    mf = harness_modfile()
+    if mf:
+        cmd += ["-modfile", mf]
     if mod.get("race"):
         cmd.append("-race")
     cmd.append(pkg)
@@ -271,8 +296,8 @@ def build_driver(mod, tags=None):
                        stderr=subprocess.STDOUT, text=True)
     if p.returncode != 0:
         log(p.stdout[-6000:])
-        raise ToolError("driver %s does not build against /repo (exit 2, not a verdict)" % pkg)
-    log("  BUILD %s (%s) %.1fs" % (pkg, tags, time.time() - t0))
+        raise ToolError("driver %s does not build against %s (exit 2, not a verdict)" % (pkg, REPO))
+    log("  BUILD %s (%s) against %s %.1fs" % (pkg, tags, REPO, time.time() - t0))
     return out
 
 
